@@ -42,14 +42,14 @@ func checkC15(c *Ctx, r *Report) {
 		r.fail("R15.1", fnID(rr), "no function of package server calls the stream classifier", c.pos(rr.Pos()), "", "no-classifier-caller")
 		return
 	}
-	c15Step(c, r, step)
+	c15Step(c, r, rr, step)
 	c15Loop(c, r, rr, step)
 	c15Conn(c, r, c.fnMust("server", "*connection.handle"))
 	r.assumption("bytes.Buffer contract: Bytes() is the unread portion, Next(n) returns and consumes min(n, Len()) bytes, Reset empties, Write appends")
 	r.assumption("one assembler per connection, used by one goroutine (server.go creates it per accepted connection)")
 }
 
-func c15Step(c *Ctx, r *Report, step *ssa.Function) map[string]bool {
+func c15Step(c *Ctx, r *Report, rr, step *ssa.Function) map[string]bool {
 	fired := map[string]bool{}
 	id := fnID(step)
 	rep := func(rule string, ok bool, what, detail, sig, pos string) {
@@ -134,19 +134,32 @@ func c15Step(c *Ctx, r *Report, step *ssa.Function) map[string]bool {
 			rep("R15.1", ok && cr.state.entails(atomEQ(s.ln, *expected)) && s.off.isConst() && s.off.c == 0, "the dispatcher parses exactly the consumed frame", describeAV(cr.args[0]), "parse-arg", posOfCall(c, cr))
 		}
 	}
-	for _, rs := range fr.returns {
-		if len(rs.state) == 0 || len(rs.vals) < 2 {
+	roles := c15ResultRoles(rr, step)
+	if roles.resp < 0 || roles.closeC < 0 {
+		rep("R15.2", false, "the step's result has no (reply bytes, flags) shape", step.Signature.String(), "result-shape", c.pos(step.Pos()))
+		return fired
+	}
+	for _, rs0 := range fr.returns {
+		if len(rs0.state) == 0 {
 			continue
 		}
+		rs := rs0
 		pos := c.pos(rs.instr.Pos())
+		comps := rs.vals
+		if roles.strct {
+			comps = nil
+			for i := 0; i < roles.n; i++ {
+				comps = append(comps, an.u.fieldOf(rs.vals[0], i))
+			}
+		}
+		reply := comps[roles.resp]
 		var handled, closeC ABool
-		if len(rs.vals) == 3 {
-			handled, _ = rs.vals[1].(ABool)
-			closeC, _ = rs.vals[2].(ABool)
+		closeC, _ = comps[roles.closeC].(ABool)
+		if roles.handled >= 0 {
+			handled, _ = comps[roles.handled].(ABool)
 		} else {
 			// (reply, closeConnection): a reply means the step handled something
-			closeC, _ = rs.vals[1].(ABool)
-			if v, ok := rs.vals[0].(ASlice); ok && v.isNil {
+			if v, ok := reply.(ASlice); ok && v.isNil {
 				handled = ABool{formConst(false)}
 			} else {
 				handled = ABool{formConst(true)}
@@ -166,8 +179,8 @@ func c15Step(c *Ctx, r *Report, step *ssa.Function) map[string]bool {
 				}
 			}
 			rep("R15.1", rs.state.entails(atomEQ(out, L)), "waiting leaves the buffer untouched", "", "wait-consumes", pos)
-			if v, ok := rs.vals[0].(ASlice); !ok || !v.isNil {
-				rep("R15.1", false, "a reply is produced on a path that reports nothing handled", describeAV(rs.vals[0]), "reply-while-waiting", pos)
+			if v, ok := reply.(ASlice); !ok || !v.isNil {
+				rep("R15.1", false, "a reply is produced on a path that reports nothing handled", describeAV(reply), "reply-while-waiting", pos)
 			}
 			continue
 		}
@@ -229,52 +242,14 @@ func c15Loop(c *Ctx, r *Report, rr, step *ssa.Function) {
 	// "the result of the most recent step": the extract of the single call, or (for a loop with a
 	// priming call before it and a second call at the end of the body) the phi merging the
 	// extracts of all step calls
-	stepResult := func(k int) ssa.Value {
-		var exs []ssa.Value
-		for _, cl := range calls {
-			if refs := cl.Referrers(); refs != nil {
-				for _, rf := range *refs {
-					if e, ok := rf.(*ssa.Extract); ok && e.Index == k {
-						exs = append(exs, e)
-					}
-				}
-			}
-		}
-		if len(calls) == 1 {
-			if len(exs) == 1 {
-				return exs[0]
-			}
+	roles := c15ResultRoles(rr, step)
+	stepResult := func(k int) valSet {
+		if k < 0 {
 			return nil
 		}
-		for _, b := range rr.Blocks {
-			for _, in := range b.Instrs {
-				ph, ok := in.(*ssa.Phi)
-				if !ok {
-					break
-				}
-				if len(ph.Edges) != len(exs) {
-					continue
-				}
-				all := true
-				for _, e := range ph.Edges {
-					hit := false
-					for _, x := range exs {
-						if e == x {
-							hit = true
-						}
-					}
-					if !hit {
-						all = false
-					}
-				}
-				if all {
-					return ph
-				}
-			}
-		}
-		return nil
+		return c15Component(rr, calls, roles.strct, k)
 	}
-	resp0, handled, closeC := stepResult(0), stepResult(1), stepResult(2)
+	resp0, handled, closeC := stepResult(roles.resp), stepResult(roles.handled), stepResult(roles.closeC)
 	afterStep := func(b *ssa.BasicBlock) bool {
 		for _, cl := range calls {
 			if cl.Block().Dominates(b) {
@@ -323,10 +298,10 @@ func c15Loop(c *Ctx, r *Report, rr, step *ssa.Function) {
 		okThis := false
 		for _, p := range b.Preds {
 			if cond, neg, ok := condOf(p); ok {
-				if cond == handled && handled != nil && ((p.Succs[1] == b) != neg) {
+				if handled[cond] && ((p.Succs[1] == b) != neg) {
 					okThis = true
 				}
-				if cond == closeC && closeC != nil && p.Succs[0] == b {
+				if closeC[cond] && p.Succs[0] == b {
 					okThis = true
 				}
 			}
@@ -335,7 +310,7 @@ func c15Loop(c *Ctx, r *Report, rr, step *ssa.Function) {
 			okExit = false
 		}
 	}
-	rep(okExit && handled != nil, "the loop is left only when the step reports nothing (more) to handle or asks to close", "", "loop-exit", c.pos(call.Pos()))
+	rep(okExit && len(handled) > 0, "the loop is left only when the step reports nothing (more) to handle or asks to close", "", "loop-exit", c.pos(call.Pos()))
 	// order: response = append(response(carried), resp...)
 	okOrder := false
 	var accPhi *ssa.Phi
@@ -352,7 +327,7 @@ func c15Loop(c *Ctx, r *Report, rr, step *ssa.Function) {
 			}
 			first, second := cl.Common().Args[0], cl.Common().Args[1]
 			ph, firstIsPhi := first.(*ssa.Phi)
-			if firstIsPhi && second == resp0 && resp0 != nil {
+			if firstIsPhi && resp0[second] {
 				// the phi is loop-carried with this append's result
 				for _, e := range ph.Edges {
 					if e == cl {
@@ -382,7 +357,7 @@ func c15Loop(c *Ctx, r *Report, rr, step *ssa.Function) {
 				// allowed only where the most recent step produced nothing: the branch on 'handled' (false edge)
 				viaNotHandled := false
 				for _, p := range b.Preds {
-					if cond, neg, ok := condOf(p); ok && cond == handled && ((p.Succs[1] == b) != neg) {
+					if cond, neg, ok := condOf(p); ok && handled[cond] && ((p.Succs[1] == b) != neg) {
 						viaNotHandled = true
 					}
 				}
@@ -775,4 +750,211 @@ func assemblerReceiveRead(c *Ctx) *ssa.Function {
 		}
 	}
 	return fn
+}
+
+// c15Roles names the components of the per-packet step's result by role. The result is either
+// a tuple or a single struct; the reply is its []byte component, the flags are its bool
+// components. With two flags, "handled" is the one the read loop tests first (its test
+// dominates the other's), by default the first.
+type c15Roles struct {
+	strct                 bool
+	n                     int
+	resp, handled, closeC int
+}
+
+func c15ResultRoles(rr, step *ssa.Function) c15Roles {
+	ro := c15Roles{resp: -1, handled: -1, closeC: -1}
+	res := step.Signature.Results()
+	var ts []types.Type
+	if res.Len() == 1 {
+		if st, ok := res.At(0).Type().Underlying().(*types.Struct); ok {
+			ro.strct = true
+			for i := 0; i < st.NumFields(); i++ {
+				ts = append(ts, st.Field(i).Type())
+			}
+		}
+	}
+	if !ro.strct {
+		for i := 0; i < res.Len(); i++ {
+			ts = append(ts, res.At(i).Type())
+		}
+	}
+	ro.n = len(ts)
+	var bools []int
+	for i, t := range ts {
+		switch u := t.Underlying().(type) {
+		case *types.Slice:
+			if b, ok := u.Elem().Underlying().(*types.Basic); ok && b.Kind() == types.Uint8 && ro.resp < 0 {
+				ro.resp = i
+			}
+		case *types.Basic:
+			if u.Kind() == types.Bool {
+				bools = append(bools, i)
+			}
+		}
+	}
+	switch len(bools) {
+	case 1:
+		ro.closeC = bools[0]
+	case 2:
+		ro.handled, ro.closeC = bools[0], bools[1]
+		if rr != nil {
+			var calls []*ssa.Call
+			for _, b := range rr.Blocks {
+				for _, in := range b.Instrs {
+					if cl, ok := in.(*ssa.Call); ok && cl.Common().StaticCallee() == step {
+						calls = append(calls, cl)
+					}
+				}
+			}
+			testOf := func(k int) *ssa.BasicBlock {
+				v := c15Component(rr, calls, ro.strct, k)
+				for _, b := range rr.Blocks {
+					if iff, ok := b.Instrs[len(b.Instrs)-1].(*ssa.If); ok {
+						cond := iff.Cond
+						if u, ok := cond.(*ssa.UnOp); ok && u.Op == token.NOT {
+							cond = u.X
+						}
+						if v[cond] {
+							return b
+						}
+					}
+				}
+				return nil
+			}
+			t0, t1 := testOf(bools[0]), testOf(bools[1])
+			if t0 != nil && t1 != nil && t0 != t1 && t1.Dominates(t0) {
+				ro.handled, ro.closeC = bools[1], bools[0]
+			}
+		}
+	}
+	return ro
+}
+
+// valSet is a set of SSA values that all denote the same quantity.
+type valSet map[ssa.Value]bool
+
+// c15Component returns the values, in rr, that denote component k of "the result of the most
+// recent step": the extract (tuple) or field selection (struct value, or loads of that field of
+// a local that only ever holds step results) of the single call, or — for a loop with a priming
+// call before it and a second call at the end of the body — the phi merging the components of
+// all step calls.
+func c15Component(rr *ssa.Function, calls []*ssa.Call, strct bool, k int) valSet {
+	var exs []ssa.Value
+	loads := valSet{}
+	add := func(v ssa.Value) {
+		for _, x := range exs {
+			if x == v {
+				return
+			}
+		}
+		exs = append(exs, v)
+	}
+	isStep := func(v ssa.Value) bool {
+		for _, cl := range calls {
+			if v == ssa.Value(cl) {
+				return true
+			}
+		}
+		return false
+	}
+	var fromValue func(v ssa.Value, depth int)
+	fromValue = func(v ssa.Value, depth int) {
+		refs := v.Referrers()
+		if refs == nil || depth > 2 {
+			return
+		}
+		for _, rf := range *refs {
+			switch e := rf.(type) {
+			case *ssa.Extract:
+				if !strct && e.Index == k {
+					add(e)
+				}
+			case *ssa.Field:
+				if strct && e.Field == k {
+					add(e)
+				}
+			case *ssa.Phi:
+				if strct {
+					fromValue(e, depth+1) // the struct itself is merged, then selected from
+				}
+			case *ssa.Store:
+				// `next := step()`: a local that is only ever assigned whole step results and read
+				// field by field; every load of field k is component k of the latest step
+				al, ok := e.Addr.(*ssa.Alloc)
+				if !ok || !strct || e.Val != v || al.Referrers() == nil {
+					continue
+				}
+				clean := true
+				var lds []ssa.Value
+				for _, ar := range *al.Referrers() {
+					switch x := ar.(type) {
+					case *ssa.Store:
+						if x.Addr != ssa.Value(al) || !isStep(x.Val) {
+							clean = false
+						}
+					case *ssa.FieldAddr:
+						if x.Referrers() == nil {
+							continue
+						}
+						for _, fr := range *x.Referrers() {
+							ld, isLd := fr.(*ssa.UnOp)
+							if !isLd || ld.Op != token.MUL {
+								clean = false
+							} else if x.Field == k {
+								lds = append(lds, ld)
+							}
+						}
+					case *ssa.DebugRef:
+					default:
+						clean = false
+					}
+				}
+				if clean {
+					for _, ld := range lds {
+						loads[ld] = true
+					}
+				}
+			}
+		}
+	}
+	for _, cl := range calls {
+		fromValue(cl, 0)
+	}
+	if len(loads) > 0 && len(exs) == 0 && len(calls) == 1 {
+		return loads
+	}
+	if len(exs) == 1 && len(loads) == 0 {
+		return valSet{exs[0]: true}
+	}
+	if len(calls) == 1 || len(exs) == 0 || len(loads) > 0 {
+		return nil
+	}
+	for _, b := range rr.Blocks {
+		for _, in := range b.Instrs {
+			ph, ok := in.(*ssa.Phi)
+			if !ok {
+				break
+			}
+			if len(ph.Edges) != len(exs) {
+				continue
+			}
+			all := true
+			for _, e := range ph.Edges {
+				hit := false
+				for _, x := range exs {
+					if e == x {
+						hit = true
+					}
+				}
+				if !hit {
+					all = false
+				}
+			}
+			if all {
+				return valSet{ph: true}
+			}
+		}
+	}
+	return nil
 }
